@@ -120,7 +120,8 @@ def _cf_case(rng):
         start = Fraction(rng.randint(0, span // 7))
     step = rng.choice([1, 1, 2, 24, Fraction(1, 2), Fraction(3, 8), 365])
     vals = [start + step * i for i in range(n)]
-    bnd = rng.choice(['none', 'none', 'approx', 'tb']) if n >= 2 else 'none'
+    # 'tbgap': a time_bounds variable whose cells are not contiguous (daytime-only windows, stacked episodes)
+    bnd = rng.choice(['none', 'none', 'approx', 'tb', 'tbgap']) if n >= 2 else 'none'
     tdt = 'd'
     if rng.random() < 0.25:
         # the time variable stored as float32 or as an integer type: the stored value (exactly) is what must be decoded
@@ -168,7 +169,9 @@ def gen(rng, tier):
             out.append(dict(kind='attrs', sdate=sd, stime=st, tstep=T, n=rng.randint(1, 6), bounds=rng.random() < 0.3))
         elif r < 4:
             sd, st, T, fl = _flags(rng, 1)
-            out.append(dict(kind='synth', sdate=sd, stime=st, tstep=T, n=rng.randint(1, 6)))
+            # pre: the file already carries time flags (from another start and step) when the new ones are requested
+            out.append(dict(kind='synth', sdate=sd, stime=st, tstep=T, n=rng.randint(1, 6),
+                            pre=rng.choice([None, None, 'attrs', 'args'])))
         elif r < 8:
             out.append(_cf_case(rng))
         else:
@@ -224,8 +227,16 @@ def impl(case):
                 return dict(times=_times_out(f.getTimes(bounds=case['bounds'])))
             if k == 'synth':
                 f = _ioapi(case['n'])
-                f.SDATE, f.STIME, f.TSTEP = case['sdate'], case['stime'], case['tstep']
-                f.updatetflag(overwrite=True)
+                if case.get('pre'):
+                    f.SDATE, f.STIME, f.TSTEP = 2001001, 30000, 20000
+                    f.updatetflag(overwrite=True)
+                if case.get('pre') == 'args' and case['sdate'] > 1000000 and case['stime'] < 240000:
+                    import datetime
+                    sd_ = datetime.datetime.strptime('%07d %06d' % (case['sdate'], case['stime']), '%Y%j %H%M%S')
+                    f.updatetflag(overwrite=True, startdate=sd_, tstep=case['tstep'])
+                else:
+                    f.SDATE, f.STIME, f.TSTEP = case['sdate'], case['stime'], case['tstep']
+                    f.updatetflag(overwrite=True)
                 tf = f.variables['TFLAG'][:]
                 ok = bool((tf == tf[:, :1, :]).all())
                 return dict(flags=[[int(a), int(b)] for a, b in tf[:, 0, :]], allvars=ok,
@@ -269,10 +280,10 @@ def _impl_cf(case):
     v.units = '%s since %s' % (case['unit'], case['ref'])
     if case['cal'] is not None:
         v.calendar = case['cal']
-    if case['bnd'] == 'tb':
+    if case['bnd'] in ('tb', 'tbgap'):
         f.createDimension('nv', 2)
         b = f.createVariable('time_bounds', 'd', ('time', 'nv'))
-        step = vals[1] - vals[0]
+        step = (vals[1] - vals[0]) / (2 if case['bnd'] == 'tbgap' else 1)
         b[:, 0] = vals
         b[:, 1] = [x + step for x in vals]
     res = {}
@@ -338,8 +349,8 @@ def to_line(case, res):
         cal = {'noleap': '365', '365_day': '365', 'all_leap': '366', '366_day': '366'}.get(case['cal'], 'std')
         vals = list(case['vals'])
         bnd = case['bnd']
-        if bnd == 'tb':
-            step = Fraction(vals[1]) - Fraction(vals[0])
+        if bnd in ('tb', 'tbgap'):
+            step = (Fraction(vals[1]) - Fraction(vals[0])) / (2 if bnd == 'tbgap' else 1)
             vals = vals + [lib.show_rat(Fraction(vals[-1]) + step)]
             bnd = 'none'
         return 'c12 cf %s %s %s %s %s' % (case['unit'], cal, ','.join(map(str, ref)), lib.show_list(vals), bnd)
@@ -476,8 +487,9 @@ def _oracle_cf(case, res):
         dts = np.diff(vals)
         dtm = dts.mean()
         vals = list(np.append(np.array(vals) - dtm / 2, vals[-1] + dtm / 2))
-    elif case['bnd'] == 'tb':
-        vals = vals + [vals[-1] + (vals[1] - vals[0])]
+    elif case['bnd'] in ('tb', 'tbgap'):
+        # the start of every cell followed by the end of the last one
+        vals = vals + [vals[-1] + (vals[1] - vals[0]) / (2 if case['bnd'] == 'tbgap' else 1)]
     # canonical units string in UTC
     refutc = dt.datetime(y, m, d) + dt.timedelta(seconds=sod - off)
     units = '%s since %04d-%02d-%02d %02d:%02d:%02d' % (case['unit'], refutc.year, refutc.month, refutc.day,
